@@ -61,10 +61,22 @@ theorem firstPass_rinv (c : Cfg) (rels : List Rel) (fixed : Bool) :
         apply Array.getElem?_eq_none
         rw [i3.inv2.wf.rsize]; omega
       simp [deadB, this]
-  refine ⟨i3, ⟨?_, ?_, ?_⟩, ?_, ?_⟩
+  refine ⟨i3, ⟨?_, ?_, ?_⟩, ⟨?_, ?_⟩, ?_, ?_⟩
   · intro k e he hpos o ho; cases ho
   · intro k e he _; exact hh k e he
   · intro _ k e he _; exact hh k e he
+  · intro k e he e' he' _; rw [hh k e he, hh k e' he']
+  · -- the stash holds only the relations
+    intro h o hg
+    exfalso
+    rw [heq, (prepare_fields s').2.1] at hg
+    unfold stashGet at hg
+    split at hg
+    · cases hg
+    · rw [← Array.getElem?_toList, f.stash, List.getElem?_map] at hg
+      cases hL : (interestingRels c rels)[h - 1]? with
+      | none => rw [hL] at hg; simp at hg
+      | some r => rw [hL] at hg; simp at hg
   · intro k e he
     rw [firstPass_num c rels k e he, hdead]; simp
   · rw [hlog]; intro e he; cases he
@@ -261,5 +273,255 @@ theorem no_wild_queries (c : Cfg) (hfix : c.fixed = true) (rels : List Rel) (ops
   intro h
   rw [State.events, List.mem_reverse, (run_fields c rels ops).1] at h
   exact i.looks _ h hfix rfl
+
+/-- an object that has not arrived (yet) is not found, whatever wants it -/
+theorem lookup_not_arrived (c : Cfg) (rels : List Rel) (ops : List Op) (d : Dom c rels ops)
+    (k : Kind) (id : Int) (hns : (k, id) ∉ seenIds c ops) :
+    (run c rels ops).lookup k id = .absent := by
+  have i := final_rinv c rels ops d
+  rw [run_lookup]
+  unfold State.lookup
+  split
+  · rfl
+  · rw [dbLookup_sorted _ _ _ (i.inv3.sorted k)]
+    cases hf : ((runOps c (firstPass c rels) ops).getDb k).filter (fun e => e.mid == id) with
+    | nil => rfl
+    | cons e0 rest =>
+      have hmem : e0 ∈ ((runOps c (firstPass c rels) ops).getDb k).filter (fun e => e.mid == id) := by
+        rw [hf]; exact List.mem_cons_self ..
+      obtain ⟨h1, h2⟩ := List.mem_filter.mp hmem
+      have h2' : e0.mid = id := by simpa using h2
+      have := i.hinv.fresh k e0 h1 (by
+        rw [h2']
+        intro hm
+        apply hns
+        rw [seenIds_eq]
+        obtain ⟨o, ho, hk⟩ := List.mem_map.mp hm
+        exact List.mem_map.mpr ⟨o, List.mem_reverse.mp ho, hk⟩)
+      simp [this]
+
+/-! ### every point of a history in the domain is the end of a history in the domain -/
+
+theorem seenObjs_take (c : Cfg) : ∀ (ops : List Op) (n : Nat), ∃ m, seenObjs c (ops.take n) = (seenObjs c ops).take m := by
+  intro ops
+  induction ops with
+  | nil => intro n; exact ⟨0, by simp [seenObjs]⟩
+  | cons op ops ih =>
+    intro n
+    cases n with
+    | zero => exact ⟨0, by simp [seenObjs]⟩
+    | succ n =>
+      obtain ⟨m, hm⟩ := ih n
+      simp only [List.take_succ_cons]
+      cases op with
+      | query k id => exact ⟨m, by simpa [seenObjs] using hm⟩
+      | flush => exact ⟨m, by simpa [seenObjs] using hm⟩
+      | obj o =>
+        by_cases hen : c.enabled o.kind = true
+        · refine ⟨m + 1, ?_⟩
+          have h1 : seenObjs c (Op.obj o :: ops) = o :: seenObjs c ops := by simp [seenObjs, hen]
+          have h2 : seenObjs c (Op.obj o :: ops.take n) = o :: seenObjs c (ops.take n) := by simp [seenObjs, hen]
+          rw [h1, h2, hm]; rfl
+        · refine ⟨m, ?_⟩
+          have h1 : seenObjs c (Op.obj o :: ops) = seenObjs c ops := by simp [seenObjs, hen]
+          have h2 : seenObjs c (Op.obj o :: ops.take n) = seenObjs c (ops.take n) := by simp [seenObjs, hen]
+          rw [h1, h2, hm]
+
+theorem checkRun_take : ∀ (l : List (Kind × Int)) (s : CheckState) (m : Nat),
+    checkRun s l ≠ none → checkRun s (l.take m) ≠ none := by
+  intro l
+  induction l with
+  | nil => intro s m h; simpa using h
+  | cons x l ih =>
+    intro s m h
+    cases m with
+    | zero => simp [checkRun]
+    | succ m =>
+      obtain ⟨k, id⟩ := x
+      obtain ⟨s', hs, hr⟩ := checkRun_cons_some h
+      simp only [List.take_succ_cons, checkRun, hs]
+      exact ih s' m hr
+
+theorem Dom.take {c : Cfg} {rels : List Rel} {ops : List Op} (d : Dom c rels ops) (n : Nat) :
+    Dom c rels (ops.take n) := by
+  obtain ⟨m, hm⟩ := seenObjs_take c ops n
+  have hids : seenIds c (ops.take n) = (seenIds c ops).take m := by
+    simp only [seenIds, hm, List.map_take]
+  refine ⟨d.relIds, ?_, ?_⟩
+  · rw [hids]
+    have := d.ordered
+    unfold accepts at this ⊢
+    have h1 : checkRun {} (seenIds c ops) ≠ none := by
+      intro h; rw [h] at this; simp at this
+    have h2 := checkRun_take _ {} m h1
+    cases h3 : checkRun {} ((seenIds c ops).take m) with
+    | none => exact absurd h3 h2
+    | some _ => rfl
+  · rw [hids]
+    exact List.Nodup.sublist (List.take_sublist m _) d.nodup
+
+theorem seenObjs_take_subset (c : Cfg) (ops : List Op) (n : Nat) : ∀ o ∈ seenObjs c (ops.take n), o ∈ seenObjs c ops := by
+  intro o ho
+  obtain ⟨m, hm⟩ := seenObjs_take c ops n
+  rw [hm] at ho
+  exact List.mem_of_mem_take ho
+
+/-! ### logged queries are the lookups at that point of the history -/
+
+def isQuery : Event → Bool
+  | .query .. => true
+  | _ => false
+
+theorem handleComplete_queries (c : Cfg) (s : State) (pos : Nat) :
+    (handleComplete c s pos).log.filter isQuery = s.log.filter isQuery := by
+  unfold handleComplete
+  split
+  · simp [isQuery]
+  · rw [relRemove_log, (removeMembers_frame c _ _ _).2, (possiblyFlush_frame c _).2]
+    simp [announce, isQuery]
+
+theorem completeStep_queries (c : Cfg) (s : State) (pos : Nat) :
+    (completeStep c s pos).log.filter isQuery = s.log.filter isQuery := by
+  unfold completeStep
+  split
+  · rfl
+  · split
+    · rfl
+    · split
+      · rw [handleComplete_queries]
+      · rfl
+
+theorem completeLoop_queries (c : Cfg) (ps : List Nat) : ∀ s : State,
+    (completeLoop c s ps).log.filter isQuery = s.log.filter isQuery := by
+  induction ps with
+  | nil => intro s; rfl
+  | cons p ps ih => intro s; simp only [completeLoop]; rw [ih, completeStep_queries]
+
+theorem memberAdd_queries (c : Cfg) (s : State) (o : Obj) :
+    (memberAdd c s o).log.filter isQuery = s.log.filter isQuery := by
+  unfold memberAdd
+  split
+  split
+  · rw [(possiblyFlush_frame c _).2]; simp [isQuery]
+  · rw [(possiblyFlush_frame c _).2, completeLoop_queries, (setDb_fields _ _ _).2.2.1]
+
+theorem handleObj_queries (c : Cfg) (s s' : State) (o : Obj) (h : handleObj c s o = some s') :
+    s'.log.filter isQuery = s.log.filter isQuery := by
+  unfold handleObj at h
+  split at h
+  · cases h; rfl
+  · split at h
+    · cases h
+    · cases h; rw [memberAdd_queries]
+
+theorem query_event_lookup (c : Cfg) : ∀ (ops : List Op) (s : State) (k : Kind) (id : Int) (res : Lookup),
+    Event.query k id res ∈ (runOps c s ops).log →
+      Event.query k id res ∈ s.log ∨
+      ∃ n, ops[n]? = some (.query k id) ∧ res = (runOps c s (ops.take n)).lookup k id := by
+  intro ops
+  induction ops with
+  | nil => intro s k id res h; exact Or.inl h
+  | cons op ops ih =>
+    intro s k id res h
+    cases op with
+    | query k' id' =>
+      simp only [runOps] at h
+      rcases ih _ k id res h with h1 | ⟨n, hn, hres⟩
+      · rcases List.mem_cons.mp h1 with heq | h1
+        · cases heq
+          exact Or.inr ⟨0, rfl, rfl⟩
+        · exact Or.inl h1
+      · exact Or.inr ⟨n + 1, by simpa using hn, by simpa [runOps] using hres⟩
+    | flush =>
+      simp only [runOps] at h
+      rcases ih _ k id res h with h1 | ⟨n, hn, hres⟩
+      · left
+        have : (s.flushOutput c).log = s.log := by unfold State.flushOutput; split <;> rfl
+        rwa [this] at h1
+      · exact Or.inr ⟨n + 1, by simpa using hn, by simpa [runOps] using hres⟩
+    | obj o =>
+      simp only [runOps] at h
+      cases ho : handleObj c s o with
+      | none =>
+        rw [ho] at h
+        rcases List.mem_cons.mp h with heq | h1
+        · cases heq
+        · exact Or.inl h1
+      | some s' =>
+        rw [ho] at h
+        rcases ih _ k id res h with h1 | ⟨n, hn, hres⟩
+        · -- the member handlers log no queries
+          left
+          have h2 : Event.query k id res ∈ s'.log.filter isQuery := List.mem_filter.mpr ⟨h1, rfl⟩
+          rw [handleObj_queries c s s' o ho] at h2
+          exact (List.mem_filter.mp h2).1
+        · exact Or.inr ⟨n + 1, by simpa using hn, by simpa [runOps, ho] using hres⟩
+
+theorem firstPass_log (c : Cfg) (rels : List Rel) : (firstPass c rels).log = [] := by
+  obtain ⟨s', f, heq⟩ := firstPass_fp c rels
+  rw [heq, (prepare_fields s').2.2.1, f.log]
+
+/-- every logged query is the lookup in the state the run had reached at that op -/
+theorem query_events_are_lookups (c : Cfg) (rels : List Rel) (ops : List Op) (k : Kind) (id : Int) (res : Lookup)
+    (h : Event.query k id res ∈ (run c rels ops).events) :
+    ∃ n, ops[n]? = some (.query k id) ∧ res = (run c rels (ops.take n)).lookup k id := by
+  rw [State.events, List.mem_reverse, (run_fields c rels ops).1] at h
+  rcases query_event_lookup c ops (firstPass c rels) k id res h with h1 | ⟨n, hn, hres⟩
+  · rw [firstPass_log] at h1; cases h1
+  · exact ⟨n, hn, by rw [run_lookup]; exact hres⟩
+
+/-! ### nothing leaks -/
+
+/-- every object item that is live in the stash at the end of a history in the domain is the
+    copy of an arrived object that an interesting relation wants and that is still needed: the
+    relation is not completed (or the object has id 0, which `remove_members` skips); and all
+    elements of one range carry the same handle -/
+theorem object_items_needed (c : Cfg) (rels : List Rel) (ops : List Op) (d : Dom c rels ops)
+    (h : Nat) (o : Obj) (hg : stashGet (run c rels ops).stash h = some (.obj o)) :
+    o ∈ seenObjs c ops ∧ ∃ r ∈ interestingRels c rels, (o.kind, o.id) ∈ wantedRefs c r ∧
+      (o.id = 0 ∨ r.id ∉ callbacks (run c rels ops).events) := by
+  have i := final_rinv c rels ops d
+  rw [(run_fields c rels ops).2.2.1] at hg
+  obtain ⟨k, e, he, heh, henum⟩ := i.xinv.noleak h o hg
+  have hh0 : e.h ≠ 0 := by
+    intro h0; rw [heh] at h0; rw [h0] at hg; simp [stashGet] at hg
+  -- the element's object has arrived, and it is this one
+  have hkey : (k, e.mid) ∈ ((seenObjs c ops).reverse).map okey := by
+    apply Classical.byContradiction
+    intro hnot; exact hh0 (i.hinv.fresh k e he hnot)
+  obtain ⟨o', ho', hk', hi'⟩ := exists_obj_of_key hkey
+  have hpos : 0 < liveRefs ((runOps c (firstPass c rels) ops).getDb k) e.mid :=
+    List.countP_pos_iff.mpr ⟨e, he, by simp [henum]⟩
+  have hlive := (i.hinv.live k e he hpos o' ho' hk' hi').2
+  rw [heh, hg] at hlive
+  have hoo : o = o' := by simpa using hlive
+  subst hoo
+  refine ⟨List.mem_reverse.mp ho', ?_⟩
+  -- the relation the element belongs to
+  have hlt := rpos_lt_of_skel i.inv3.skelEq i.inv3.rposlt k e he
+  have hp : (interestingRels c rels)[e.rpos]? = some (interestingRels c rels)[e.rpos] := by simp [hlt]
+  obtain ⟨s', f, heq⟩ := firstPass_fp c rels
+  have hmem := mem_base_of_mem i.inv3.skelEq k e he
+  rw [heq] at hmem
+  have hw := (base_mem_iff f k e.mid e.rpos _ hp).mp hmem
+  refine ⟨_, List.mem_of_getElem? hp, by rw [hk', hi']; exact hw, ?_⟩
+  by_cases h0 : e.mid = 0
+  · exact Or.inl (hi'.trans h0)
+  · right
+    have hnum := i.num k e he
+    rw [henum] at hnum
+    have hdead : deadB (runOps c (firstPass c rels) ops) e.rpos = false := by
+      simpa [h0] using hnum.symm
+    obtain ⟨h1, h2, _, _⟩ := final_facts c rels ops d e.rpos _ hp
+    intro hcb
+    have := List.count_pos_iff.mpr hcb
+    rw [h1, h2, hdead] at this
+    simp at this
+
+theorem handles_uniform (c : Cfg) (rels : List Rel) (ops : List Op) (d : Dom c rels ops) (k : Kind) :
+    ∀ e ∈ (run c rels ops).getDb k, ∀ e' ∈ (run c rels ops).getDb k, e.mid = e'.mid → e.h = e'.h := by
+  have i := final_rinv c rels ops d
+  rw [(run_fields c rels ops).2.2.2 k]
+  exact i.xinv.uniform k
 
 end Osmium.RelMgr
